@@ -51,7 +51,7 @@ func (e *env) endToEndTx(st *state, shapeName, rule string, wire []byte, f *fact
 	fail := func(what, note string) {
 		r := *rec
 		r.Note = note
-		e.f.add(fmt.Sprintf("proposable:e2e-%s:%s:%s:%s", what, rule, shapeName, st.Name), &r)
+		e.f.add(fmt.Sprintf("e2e:%s:%s:%s:%s", what, rule, shapeName, st.Name), &r)
 	}
 	defer func() {
 		if p := recover(); p != nil {
